@@ -156,26 +156,28 @@ def load_bounded(sess: Session):
                     ids = {i: f'x-{i + 1:08}-n' for i in range(n)}
                     for i, s in enumerate(nodes):
                         s.id = ids[i]
-                    path = os.path.join(tmp, 'ic.dat')
-                    with open(path, 'w') as fh:
-                        fh.write('wnver::xyz\n')
+                    for nl, final_nl in (('\n', True), ('\n', False), ('\r\n', True), ('\r\n', False)):
+                        # line ends LF / CRLF, last record with or without a terminating line end
+                        path = os.path.join(tmp, 'ic.dat')
+                        lines = ['wnver::xyz'] + [f'{i + 1}n {10 * (i + 1)}.5{" ROOT" if i in roots else ""}' for i in listed]
+                        with open(path, 'w', newline='') as fh:
+                            fh.write(nl.join(lines) + (nl if final_nl else ''))
+                        cases += 1
+                        try:
+                            freq = wnic.load(path, w)
+                        except Exception as exc:
+                            bad.append({'listed': listed, 'roots': roots, 'line end': repr(nl), 'final': final_nl,
+                                        'error': repr(exc)})
+                            continue
+                        want = {p: {None: 0.0} for p in 'nvar'}
+                        for i in range(n):
+                            want['n'][ids[i]] = 0.0
                         for i in listed:
-                            fh.write(f'{i + 1}n {10 * (i + 1)}.5{" ROOT" if i in roots else ""}\n')
-                    cases += 1
-                    try:
-                        freq = wnic.load(path, w)
-                    except Exception as exc:
-                        bad.append({'listed': listed, 'roots': roots, 'error': repr(exc)})
-                        continue
-                    want = {p: {None: 0.0} for p in 'nvar'}
-                    for i in range(n):
-                        want['n'][ids[i]] = 0.0
-                    for i in listed:
-                        want['n'][ids[i]] = 10 * (i + 1) + 0.5
-                        if i in roots:
-                            want['n'][None] += 10 * (i + 1) + 0.5
-                    if freq != want:
-                        bad.append({'n': n, 'listed': listed, 'roots': roots, 'got': freq, 'want': want})
+                            want['n'][ids[i]] = 10 * (i + 1) + 0.5
+                            if i in roots:
+                                want['n'][None] += 10 * (i + 1) + 0.5
+                        if freq != want:
+                            bad.append({'n': n, 'listed': listed, 'roots': roots, 'got': freq, 'want': want})
     finally:
         import shutil
         shutil.rmtree(tmp, ignore_errors=True)
